@@ -433,7 +433,8 @@ creation order, `prec:script:vecs` as in `c05.run`).
 The objective of these handlers looks a vector up in `table` exactly, and otherwise within the
 comparison band of the harness (1e-9 relative + 1e-12 absolute per coordinate; the closest such entry): the model computes
 positions in exact arithmetic, the recorded run in doubles.  A vector that matches no entry makes
-the answer `uncovered`, so no junk value of the table oracle can reach an answer.
+the answer `uncovered`, and so does an evaluated design without costs (a successful call whose
+vector matches no entry with costs), so no junk value of the table oracle can reach an answer.
 -/
 namespace Artap.SwarmRun
 open Artap Artap.Eval Artap.Proto
@@ -466,14 +467,16 @@ def lookupNear (table : List (Vec × List Rat × List Rat)) (v : Vec) : Option (
   | some e => some e.2
   | none => (closest v (table.filter (fun e => nearVec e.1 v))).map (·.2)
 
-/-- `Eval.mkEnv` with the tolerant lookup; costs are stored as the run stored them (`rnd` = identity). -/
+/-- `Eval.mkEnv` with the tolerant lookup; costs are stored as the run stored them (`rnd` = identity).
+A successful call takes its costs from the entries that have costs (a vector that was only ever the
+argument of a failed call has none). -/
 def mkEnvNear (signs : List Rat) (table : List (Vec × List Rat × List Rat)) (specs : List DesignSpec) : Env where
   obj := fun key n v =>
     match specs[key]? with
     | none => .fatal 0
     | some sp =>
       match sp.script[n]? with
-      | some (.ok _) => .ok ((lookupNear table v).map (·.1) |>.getD [])
+      | some (.ok _) => .ok ((lookupNear (table.filter (fun e => !e.2.1.isEmpty)) v).map (·.1) |>.getD [])
       | some o => o
       | none => .fatal 0
   reroll := fun key n => (specs[key]?.bind (fun sp => sp.vecs[n + 1]?)).getD []
@@ -607,7 +610,7 @@ def handle (op : String) (arg : String) : Option String :=
         | none => some "raise turbulence"
         | some turb =>
           let res := evalSerial env (turb.map (·.d)) s0.world
-          if !(tableCoversNear table res.2.2) then
+          if !(tableCoversNear table res.2.2) || res.2.1.any (fun d => d.state == .evaluated && d.costs.isEmpty) then
             some (String.intercalate "|" ["uncovered " ++ showMat showRat (vel.map (·.vel)),
               showMat showRat (pos.map (·.d.vec)), showMat showRat (pos.map (·.vel)),
               showMat showRat (turb.map (·.d.vec))]) else
@@ -653,7 +656,7 @@ def handle (op : String) (arg : String) : Option String :=
     match swarmRun cfg g ini steps with
     | none => some "raise"
     | some r =>
-      if !(tableCoversNear table r.world) then some "uncovered" else
+      if !(tableCoversNear table r.world) || r.recorded.any (fun p => p.d.costs.isEmpty) then some "uncovered" else
       some (String.intercalate "|" ["ok " ++ toString r.evals, toString r.world.log.length,
         String.intercalate ";" (r.recorded.map (fun p => s!"{p.tag}:{showList showRat p.d.vec}")),
         String.intercalate "~" (r.history.map (fun h => showLeaders h.leaders)),
